@@ -121,7 +121,7 @@ def common_attrs(ctx, ver, otype, with_mask=True, want_mask=0):
     n = r.choice([0, 0, 1, 1, 2, 3])
     for i in range(n):
         nm = ctx.uname()
-        if r.random() < 0.15:
+        if r.random() < 0.03:
             nm += u'-é中'
         at.append(A('Name', [nm, r.choice([1, 1, 2])], i))
     if ver < (2, 0) and r.random() < 0.35:
